@@ -10,6 +10,8 @@ def kslabel(s):
     """Signature suffix of a chosen key-share list: which kind of share precedes the selected one."""
     if s.get("fp_copy"):
         return ":fpcopy"
+    if s.get("edit"):
+        return ":built-first"
     ks = s.get("ks_list") or []
     if not ks:
         return ""
@@ -41,6 +43,10 @@ def run(ctx):
                 continue
             seen.add((x["id"], x["group"]))
             out.append(dict(x, ks_list=[x["group"]]))
+            # the hello is built explicitly first and Handshake builds it again over the same spec: the keys generated
+            # by the first build must survive the second
+            out.append(dict(x, edit="build-only"))
+            out.append(dict(x, edit="build-nosession"))
             # a fingerprinted copy of the parrot's own hello (captured shares must not be re-sent: the copy generates
             # its own keys and holds the private key of every share, hybrid ones included)
             if x["group"] in (4588, 29) and "Randomized" not in x["id"]:
